@@ -8,6 +8,7 @@ package main
 
 import (
 	"fmt"
+	"go/constant"
 	"sort"
 	"strings"
 )
@@ -59,6 +60,12 @@ func tagNameDomain() []string {
 		add("ab" + string([]byte{byte(b)}) + "cd")
 		add(string([]byte{byte(b)}) + "bcd")
 		add("abc" + string([]byte{byte(b)}))
+	}
+	// well-formed multi-byte runes that Unicode classifies as lower-case letters or digits
+	for _, u := range []string{"é", "ß", "α", "я", "ａ", "１", "٣", "ǆ", "\u00aa"} {
+		add("ab" + u + "cd")
+		add(u + u + u)
+		add("abc_" + u)
 	}
 	for n := 1; n <= 38; n++ {
 		add(strings.Repeat("s", n))
@@ -120,6 +127,15 @@ func (c *Ctx) checkTagSemantics(r *Report, ro *Roles, rule string) bool {
 	names := tagNameDomain()
 	registered := map[string]bool{}
 	ptrs := map[string]*Ptr{}
+	// tags the package registers for itself while it is initialised are part of the registry from the start
+	st.ip.initGlobals()
+	if getAll != nil {
+		if res, out, err := st.call(getAll); err == nil && out == "ok" {
+			for _, n := range avStrings(res) {
+				registered[n] = true
+			}
+		}
+	}
 	var bad []string
 	fail := func(format string, args ...any) {
 		if len(bad) < 4 {
@@ -167,7 +183,9 @@ func (c *Ctx) checkTagSemantics(r *Report, ro *Roles, rule string) bool {
 		if f == nil {
 			continue
 		}
-		for _, parts := range [][2]string{{"startup", "init"}, {"startup", ""}, {"s", "a"}, {"x9", ""}} {
+		long := func(n int) string { return strings.Repeat("k", n) }
+		for _, parts := range [][2]string{{"startup", "init"}, {"startup", ""}, {"s", "a"}, {"x9", ""}, {"shard", "0"}, {"shard", "9"}, {"q", "00"},
+			{long(30), ""}, {long(31), ""}, {long(32), ""}, {long(20), long(10)}, {long(20), long(11)}} {
 			res, out, err := st.call(f, kStr(parts[0]), kStr(parts[1]))
 			if err != nil {
 				r.Inconclusive(key, "%v", err)
@@ -177,12 +195,30 @@ func (c *Ctx) checkTagSemantics(r *Report, ro *Roles, rule string) bool {
 			if parts[1] != "" {
 				want += "_" + parts[1]
 			}
+			if !tagNameValid(want) {
+				if out == "ok" {
+					fail("%s(%q, %q) registers %q, which is not a valid name", h.fn, parts[0], parts[1], want)
+				}
+				continue
+			}
 			if out != "ok" {
-				fail("%s(%q, %q) %s", h.fn, parts[0], parts[1], out)
+				fail("%s(%q, %q) %s (the name %q is valid)", h.fn, parts[0], parts[1], out, want)
 				continue
 			}
 			registered[want] = true
 			if p, ok := res.(*Ptr); ok {
+				// the tag carries the composed name
+				if tv, ok := p.load().(*StructV); ok {
+					named := false
+					for _, f := range tv.F {
+						if k, ok := f.(constant.Value); ok && k.Kind() == constant.String && constant.StringVal(k) == want {
+							named = true
+						}
+					}
+					if !named {
+						fail("%s(%q, %q) returns a tag that is not named %q", h.fn, parts[0], parts[1], want)
+					}
+				}
 				if old, had := ptrs[want]; had && old.O != p.O {
 					fail("%s(%q, %q) does not return the tag registered as %q", h.fn, parts[0], parts[1], want)
 				}
@@ -207,7 +243,24 @@ func (c *Ctx) checkTagSemantics(r *Report, ro *Roles, rule string) bool {
 			}
 			sort.Strings(want)
 			if strings.Join(got, "\x00") != strings.Join(want, "\x00") {
-				fail("GetAllTags lists %d names, %d were registered (refused names must not appear, accepted names must)", len(got), len(want))
+				var extra, missing []string
+				ws := map[string]bool{}
+				for _, n := range want {
+					ws[n] = true
+				}
+				gs := map[string]bool{}
+				for _, n := range got {
+					gs[n] = true
+					if !ws[n] && len(extra) < 3 {
+						extra = append(extra, n)
+					}
+				}
+				for _, n := range want {
+					if !gs[n] && len(missing) < 3 {
+						missing = append(missing, n)
+					}
+				}
+				fail("GetAllTags lists %d names, %d were registered (not registered but listed: %q; registered but not listed: %q)", len(got), len(want), extra, missing)
 			}
 		}
 	}
